@@ -12,7 +12,8 @@ import (
 // key order. The query stub keeps a table with ids 1..N (N symbolic) and
 // answers from the statement's cursor / LIMIT / OFFSET clauses and arguments.
 
-const c15NMax = 4
+// table size bound: 4 rows in the quick tier, 7 in the thorough tier
+var c15NMax = 4 + 3*verifrt.Tier()
 
 // c15Answer interprets `... WHERE `items`.`id` > ? ... ORDER BY ... [DESC] LIMIT ? OFFSET ?`.
 func c15Answer(n int, text string, args []driver.Value) RowSet {
